@@ -27,14 +27,37 @@ def reference(c, aL, bL):
 def merge_table(it, lp, inst, op_key, final=None):
     """extract the per-row transfer of a merge loop; returns (rows, problems)"""
     probs = []
-    ints = [(r, p, fv, iv) for r, p, fv, iv in lp.carried if isinstance(fv, tuple) and fv[0] == 'sym']
+    from ..terms import mk_sel, mk_not, subterms
+    from .panics import entails
+
+    def pos_of(v):
+        """the position a carried cursor leaf stands for: an integer, the index of an element reference, the start of a
+        slice view that keeps its end"""
+        if isinstance(v, SelV):
+            a_, b_ = pos_of(v.a), pos_of(v.b)
+            return None if a_ is None or b_ is None else mk_sel(v.cond, a_, b_)
+        if isinstance(v, tuple):
+            return v
+        if isinstance(v, Ref) and v.path and v.path[-1][0] in ('i', 'e'):
+            return v.path[-1][1] if v.path[-1][0] == 'e' else ('ic', v.path[-1][1])
+        if isinstance(v, SliceRef):
+            return v.start
+        return None
+    ints = []
+    others = []
     seqs = [(r, p, fv, iv) for r, p, fv, iv in lp.carried if isinstance(fv, SeqSym)]
-    others = [x for x in lp.carried if x not in ints and x not in seqs]
-    if others or len(ints) != 2 or len(seqs) != 1:
+    for r, p, fv, iv in lp.carried:
+        if isinstance(fv, SeqSym):
+            continue
+        hv, i0 = pos_of(fv), pos_of(iv)
+        if isinstance(hv, tuple) and hv[0] == 'sym' and isinstance(i0, tuple) and \
+                not (isinstance(fv, SliceRef) and not (isinstance(iv, SliceRef) and fv.end == iv.end)):
+            ints.append((r, p, hv, i0))
+        else:
+            others.append((r, p, fv, iv))
+    if others or len(ints) < 2 or len(ints) > 4 or len(seqs) != 1:
         return None, ['loop carries %s, expected two cursors and the output vector' %
                       [it._leaf_name(lp.frame, r, p) for r, p, _, _ in lp.carried]]
-    if any(iv != ('ic', 0) for _, _, _, iv in ints):
-        probs.append('cursors do not start at 0')
     if seqs[0][3] != SeqLit(()):
         probs.append('output vector does not start empty')
     A = ('seq', 'self.segments')
@@ -78,49 +101,113 @@ def merge_table(it, lp, inst, op_key, final=None):
         if icur is None or jcur is None:
             return None, probs
     i, j = icur[2], jcur[2]
+    if any(iv != ('ic', 0) for _, _, fv, iv in ints if fv in (i, j)):
+        probs.append('cursors do not start at 0')
     ae = ('elem', A, i, 'end')
     be = ('elem', B, j, 'end')
     from ..terms import mk_and
+    import itertools
+    nf = NF()
+    one = ('ic', 1)
 
     def guard_of(s_):
         g_ = TRUE
         for l in s_.guard:
             g_ = mk_and(g_, l[0] if l[1] else ('not', l[0]))
         return g_
-    paths = [(True, s_, guard_of(s_), pushed[k]) for k, s_ in enumerate(backs)] + \
-            [(False, s_, guard_of(s_), pushed[len(backs) + k]) for k, s_ in enumerate(exits)]
-    rows = {}
-    for (c, aL, bL) in ROWS:
-        asm = {
-            ('fcmp', 'lt', ae, be): c == 'Less', ('fcmp', 'gt', ae, be): c == 'Greater', ('fcmp', 'eq', ae, be): c == 'Equal',
-            ('fcmp', 'gt', be, ae): c == 'Less', ('fcmp', 'lt', be, ae): c == 'Greater', ('fcmp', 'eq', be, ae): c == 'Equal',
-            ('unord', ae, be): False,
-            ('icmp', 'ge', i, imax): aL, ('icmp', 'lt', i, imax): not aL,
-            ('icmp', 'ge', j, jmax): bL, ('icmp', 'lt', j, jmax): not bL,
-            ('icmp', 'eq', i, imax): aL, ('icmp', 'ne', i, imax): not aL,
-            ('icmp', 'eq', j, jmax): bL, ('icmp', 'ne', j, jmax): not bL,
-            # the cursors never pass the last piece (C16 proves the indexing; a debug_assert may restate it)
-            ('icmp', 'le', i, imax): True, ('icmp', 'gt', i, imax): False,
-            ('icmp', 'le', j, jmax): True, ('icmp', 'gt', j, jmax): False,
-        }
-        taken = [(is_back, s_, pv) for is_back, s_, g_, pv in paths if simp(g_, asm) == TRUE]
-        undecided = [g_ for is_back, s_, g_, pv in paths if simp(g_, asm) not in (TRUE, FALSE)]
-        if len(taken) != 1 or undecided:
-            probs.append('%s a_last=%s b_last=%s: the path through the loop body is not decided by the comparison and the two last-piece tests (%s)' % (
-                c, aL, bL, term_str(simp(undecided[0], asm))[:160] if undecided else '%d paths' % len(taken)))
-            rows[(c, aL, bL)] = (i, j, ae, FALSE, FALSE)
+    # further cursor leaves (the `rest` of a (current, rest) pair, a one-ahead index) must move in lockstep with one of the
+    # two cursors: each is rewritten as cursor + its initial distance, and every continuing row must keep that distance
+    init_of = {fv: iv for _, _, fv, iv in ints}
+    secondaries = [(r, p, fv, iv) for r, p, fv, iv in ints if fv not in (i, j)]
+
+    def build(m):
+        bp = []
+        paths = [(True, s_, subst_term(guard_of(s_), m), pushed[k]) for k, s_ in enumerate(backs)] + \
+                [(False, s_, subst_term(guard_of(s_), m), pushed[len(backs) + k]) for k, s_ in enumerate(exits)]
+        rows = {}
+        lock_ok = True
+        for (c, aL, bL) in ROWS:
+            asm = {
+                ('fcmp', 'lt', ae, be): c == 'Less', ('fcmp', 'gt', ae, be): c == 'Greater', ('fcmp', 'eq', ae, be): c == 'Equal',
+                ('fcmp', 'gt', be, ae): c == 'Less', ('fcmp', 'lt', be, ae): c == 'Greater', ('fcmp', 'eq', be, ae): c == 'Equal',
+                ('unord', ae, be): False,
+            }
+            # integer tests are decided from what the row says about the cursors: 0 ≤ i ≤ i_max (C16 proves the indexing; a
+            # debug_assert may restate it), a_last ⇔ i = i_max, and the same for j — however the test is spelled
+            F = {('icmp', 'ge', i, ('ic', 0)), ('icmp', 'le', i, imax), ('icmp', 'ge', j, ('ic', 0)), ('icmp', 'le', j, jmax),
+                 ('icmp', 'ge', ('len', A), one), ('icmp', 'ge', ('len', B), one),
+                 ('icmp', 'ge', i, imax) if aL else ('icmp', 'le', it.iadd(i, one), imax),
+                 ('icmp', 'ge', j, jmax) if bL else ('icmp', 'le', it.iadd(j, one), jmax)}
+
+            def decide(t_):
+                for _ in range(4):
+                    t_ = simp(t_, asm)
+                    if not isinstance(t_, tuple):
+                        return t_
+                    new_ = False
+                    for x in subterms(t_):
+                        if x[0] == 'icmp' and x not in asm:
+                            if entails(F, x):
+                                asm[x] = True
+                                new_ = True
+                            elif entails(F, mk_not(x)):
+                                asm[x] = False
+                                new_ = True
+                    if not new_:
+                        return t_
+                return simp(t_, asm)
+            dec = [(is_back, s_, decide(g_), pv) for is_back, s_, g_, pv in paths]
+            taken = [(is_back, s_, pv) for is_back, s_, g_, pv in dec if g_ == TRUE]
+            undecided = [g_ for is_back, s_, g_, pv in dec if g_ not in (TRUE, FALSE)]
+            if len(taken) != 1 or undecided:
+                bp.append('%s a_last=%s b_last=%s: the path through the loop body is not decided by the comparison and the two last-piece tests (%s)' % (
+                    c, aL, bL, term_str(undecided[0])[:160] if undecided else '%d paths' % len(taken)))
+                rows[(c, aL, bL)] = (i, j, ae, FALSE, FALSE)
+                continue
+            is_back, s_, pv = taken[0]
+
+            def rd(rp):
+                v_ = pos_of(it.read(s_, rp[0], rp[1]))
+                return decide(subst_term(v_, m)) if isinstance(v_, tuple) else None
+            ri, rj = rd(icur), rd(jcur)
+            re = decide(subst_term(pv.fields[0], m)) if isinstance(pv.fields[0], tuple) else pv.fields[0]
+            if is_back:
+                for (r, p, fv, iv) in secondaries:
+                    want = subst_term(m[fv], {i: ri, j: rj}) if isinstance(ri, tuple) and isinstance(rj, tuple) else None
+                    got = rd((r, p))
+                    if not (isinstance(got, tuple) and isinstance(want, tuple) and nf(got).equals(nf(want))):
+                        lock_ok = False
+            else:
+                # leaving the loop: where the cursors are afterwards does not matter
+                wi, wj, _we = reference(c, aL, bL)
+                ri = i if wi == 0 else (it.iadd(i, one) if wi == 1 else ('imin', imax, it.iadd(i, one)))
+                rj = j if wj == 0 else (it.iadd(j, one) if wj == 1 else ('imin', jmax, it.iadd(j, one)))
+            rows[(c, aL, bL)] = (ri, rj, re, TRUE if is_back else FALSE, FALSE if is_back else TRUE)
+        return rows, bp, lock_ok
+
+    best = None
+    for choice in itertools.product((i, j), repeat=len(secondaries)):
+        m = {}
+        ok = True
+        for (r, p, fv, iv), prim in zip(secondaries, choice):
+            d = nf(iv) - nf(init_of[prim])
+            if not (d.is_const() and d.const_value().denominator == 1):
+                ok = False
+                break
+            dv = int(d.const_value())
+            m[fv] = it.iadd(prim, ('ic', dv)) if dv >= 0 else it.isub(prim, ('ic', -dv))
+        if not ok:
             continue
-        is_back, s_, pv = taken[0]
-        ri = simp(it.read(s_, icur[0], icur[1]), asm)
-        rj = simp(it.read(s_, jcur[0], jcur[1]), asm)
-        re = simp(pv.fields[0], asm)
-        if not is_back:
-            # leaving the loop: where the cursors are afterwards does not matter
-            wi, wj, _we = reference(c, aL, bL)
-            ri = i if wi == 0 else (it.iadd(i, ('ic', 1)) if wi == 1 else ('imin', imax, it.iadd(i, ('ic', 1))))
-            rj = j if wj == 0 else (it.iadd(j, ('ic', 1)) if wj == 1 else ('imin', jmax, it.iadd(j, ('ic', 1))))
-        rows[(c, aL, bL)] = (ri, rj, re, TRUE if is_back else FALSE, FALSE if is_back else TRUE)
-    return {'rows': rows, 'i': i, 'j': j, 'imax': imax, 'jmax': jmax, 'ae': ae, 'be': be, 'piece': pt}, probs
+        rows, bp, lock_ok = build(m)
+        if lock_ok and (best is None or len(bp) < len(best[1])):
+            best = (rows, bp)
+            if not bp:
+                break
+    if best is None:
+        return None, probs + ['loop carries %s besides two cursors and the output vector, and they do not move in lockstep with a cursor' %
+                              [it._leaf_name(lp.frame, r, p) for r, p, _, _ in secondaries]]
+    rows, bp = best
+    return {'rows': rows, 'i': i, 'j': j, 'imax': imax, 'jmax': jmax, 'ae': ae, 'be': be, 'piece': pt}, probs + bp
 
 
 def classify_delta(t, cur, cmax, at_max, it):
